@@ -12,7 +12,7 @@ import operator
 import pickle
 
 from .. import env, probe
-from ..models import snapshot
+from ..models import conv, snapshot
 from ..monitors.operand_frozen import OperandMonitor, Pool
 from ..workloads import table
 
@@ -527,6 +527,44 @@ def zero_divisors(ctx):
     ctx.count("divisions by a divisor holding zeros", n)
 
 
+def identity_unit_pairs(ctx, db):
+    """Two symbols of one quantity type that stand for the same size ('Euc' and '-', 'm3/m3' and its namesakes): re-expressing
+    one in the other is the identity - which is exactly where a 'converted temporary' may turn out to be the operand's own
+    array. + and - in both orders on float64 / float32 / int arrays and lists: both operands hold afterwards what they held."""
+    import numpy as np
+    from barril.units import Array, FixedArray
+
+    aff = conv.describe(db)
+    n = 0
+    for qt, us in sorted(table.units_by_type(db).items()):
+        same_size = [u for u in us if u in aff and aff[u].exact and aff[u].slope == 1.0 and aff[u].off == 0.0]
+        if qt == "Unknown" or len(same_size) < 2:
+            continue
+        u, v = same_size[0], same_size[1]
+        for kind, mk in (("nd", lambda z: np.array(z, dtype=float)), ("nd32", lambda z: np.array(z, dtype=np.float32)), ("ndint", lambda z: np.array(z, dtype=np.int64)), ("list", list)):
+            for cls_name, mk_obj in (("Array", lambda c_, u_: Array(c_, u_)), ("FixedArray", lambda c_, u_: FixedArray(3, c_, u_))):
+                for sym in ("+", "-"):
+                    ca, cb = mk([1.0, 2.0, 4.0]), mk([8.0, 16.0, 32.0])
+                    try:
+                        a, b = mk_obj(ca, u), mk_obj(cb, v)
+                    except Exception:
+                        continue
+                    snap = lambda c_: c_.tobytes() if isinstance(c_, np.ndarray) else repr(c_)  # noqa: E731
+                    before = (snap(ca), snap(cb))
+                    ctx.ev()
+                    n += 1
+                    try:
+                        r1 = a + b if sym == "+" else a - b
+                        r2 = b + a if sym == "+" else b - a
+                        del r1, r2
+                    except Exception as e:
+                        ctx.violation("identity-unit-pair:raised:%s" % type(e).__name__, {"qt": qt, "u": u, "v": v, "container": kind, "class": cls_name, "error": str(e)[:160]})
+                        continue
+                    if (snap(ca), snap(cb)) != before:
+                        ctx.violation("operand-changed-by:sum-of-two-units-of-the-same-size", {"qt": qt, "u": u, "v": v, "container": kind, "class": cls_name, "op": sym, "held": [repr(mk([1.0, 2.0, 4.0]))[:60], repr(mk([8.0, 16.0, 32.0]))[:60]], "hold": [repr(ca)[:60], repr(cb)[:60]]})
+    ctx.count("sums of operands in two units of the same size", n)
+
+
 def validation_with_limits(ctx, r, n):
     """Validation is an operation too: on categories that *have* limits (the shipped database has none), with NaN
     elements (skipped by design), in every container kind - validating, again and again, leaves the container
@@ -661,6 +699,7 @@ def run(ctx):
     if ctx.shard == 0:
         with table.pushed(db):
             zero_divisors(ctx)
+            identity_unit_pairs(ctx, db)
     ctx.notes["operand_monitor"] = {"boundary_calls_observed": mon.n_calls, "operand_snapshots_compared": mon.n_snapshots}
     ctx.inconclusive_if(mon.n_snapshots < 1000, "operand monitor compared fewer than 1000 snapshots")
     ctx.inconclusive_if(probe.BOUNDARY["Scalar.__reduce__"] == 0 and probe.COUNTS["Scalar.__reduce__"] == 0, "pickle path never reached")
